@@ -1001,6 +1001,9 @@ def run(tier, seed, ev, vd):
         'compared within the same band; residues of the written beads are identified by geometry against the input the harness wrote; '
         'without -ermd the separation is the fallback the processor documents (variable elastic_network_res_min_dist, else 2)',
     ]
+    parts = set((os.environ.get('C15_PARTS') or 'tab,trace,cli').split(','))     # debugging / mutation testing: run only some parts
+    if parts != {'tab', 'trace', 'cli'}:
+        return _run_parts(parts, tier, seed, ev, vd)
     cli = cli_start(tier, seed)
     try:
         consts = TAB_CONSTS[tier]
@@ -1019,7 +1022,7 @@ def run(tier, seed, ev, vd):
         if len(offsets) != res.distinct:
             raise tlc.MachineryError('dump has %d states, TLC reports %d' % (len(offsets), res.distinct))
         offsets.append(pos)
-        per = 80 if quick else 2000
+        per = 80 if quick else 1500
         jobs = [f for f in FAMILIES for _ in range(per)] + ['hist'] * (per // 2)
         random.Random(seed).shuffle(jobs)
         ntasks = tlc.NCPU * (1 if quick else 6)
@@ -1086,6 +1089,39 @@ def run(tier, seed, ev, vd):
         raise
     cli_collect(cli, tier, ev, vd)
     _tick('command line (waited)')
+
+
+def _run_parts(parts, tier, seed, ev, vd):
+    """C15_PARTS=cli | trace | tab (comma separated): the named parts only, without the vacuity requirements of a full run."""
+    quick = tier == 'quick'
+    cli = cli_start(tier, seed) if 'cli' in parts else None
+    try:
+        hist, roles = {}, {}
+        if 'trace' in parts:
+            per = 80 if quick else 1500
+            jobs = [f for f in FAMILIES for _ in range(per)] + ['hist'] * (per // 2)
+            random.Random(seed).shuffle(jobs)
+            ntasks = tlc.NCPU * (1 if quick else 6)
+            with mp.Pool(tlc.NCPU) as pool:
+                for _, summary in pool.imap_unordered(_trace_chunk, [(c, seed * 7919 + 2 * i) for i, c in enumerate(common.chunks(jobs, ntasks))]):
+                    _absorb(summary, ev, vd, hist, roles)
+        if 'tab' in parts:
+            res = tlc.run('ElasticNet', TAB_CFG, consts=TAB_CONSTS[tier], dump=True, timeout=1700)
+            ev.add_tlc('TAB ElasticNet', res)
+            rows = [st for st in res.states() if (0, 0) not in st['out']]
+            with mp.Pool(tlc.NCPU) as pool:
+                for out in pool.imap_unordered(_replay_chunk, [(c, seed + i, False) for i, c in enumerate(common.chunks(rows, tlc.NCPU * 4))]):
+                    ev.traces += out[0]
+                    for b in out[1]:
+                        vd.violation('replay-mismatch', b, 'real bonds %s, TLC ExpectedDecl %s %s' % (b['got'], b['expected'], b['exc']))
+        ev.extra['pairs_per_family_and_class'] = hist
+        ev.extra['system_families_by_role'] = roles
+    except BaseException:
+        if cli:
+            cli['proc'].kill()
+        raise
+    if cli:
+        cli_collect(cli, tier, ev, vd)
 
 
 def _replay_cli(sc):
